@@ -71,7 +71,7 @@ Proof. intros Hp E. vm_compute in Hp. inversion Hp; subst. vm_compute in E. disc
 Example ex_hyps :
   51 + w_dpad ex_o + w_ipad ex_o < two64 /\ w_ipad ex_o < two63 /\ w_maxcid ex_o + 8 <= max_width /\
   roots_ok ex_roots /\
-  Forall (Forall (fun b : block => cid_bytes_ok (fst b) /\ blen (fst b) + blen (snd b) < 2 ^ 56)) ex_h /\
+  Forall (Forall (fun b : block => blen (fst b) + blen (snd b) < 2 ^ 56)) ex_h /\
   blen ex_file < two63 /\
   N.of_nat (length (group_by r_code (ii_load (records_from (ld_size (blen (enc_header (Some ex_roots) 1)))
      (spec_stored KBlockstore ex_o (Some ex_roots) ex_h)) []))) < two31 /\
@@ -86,7 +86,7 @@ Proof.
     by (intros; change (2 ^ 56) with 72057594037927936; lia).
   split; [num|]. split; [num|]. split; [num|].
   split. { split; [|num]. each; (split; [first [apply ex_cid_ok1 | apply ex_cid_ok3]|num]). }
-  split. { each; (split; cbn [fst snd]; [first [apply ex_cid_ok1 | apply ex_cid_ok2 | apply ex_cid_ok3]|apply Hsz; num]). }
+  split. { each; cbn [fst snd]; apply Hsz; num. }
   split; [num|]. split; [num|]. split; [num|]. split; [num|]. split; [num|].
   split. { each; num. }
   split. { each; [apply ex_hash_good, ex_id1 | apply ex_hash_good, ex_id2 | apply ex_hash_good, ex_id1 | apply ex_hash_good, ex_id3]. }
@@ -150,7 +150,7 @@ Theorem verify_no_roots_refuted :
   exists (k : skind) (o : wopts) (nilroots : bool) (roots : list bytes) (h : list batch) s outs,
     session k o nilroots roots h = Ok (s, outs, ONil) /\
     51 + w_dpad o + w_ipad o < two64 /\ w_ipad o < two63 /\ w_maxcid o + 8 <= max_width /\
-    Forall (Forall (fun b : block => cid_bytes_ok (fst b) /\ blen (fst b) + blen (snd b) < 2 ^ 56)) h /\
+    Forall (Forall (fun b : block => blen (fst b) + blen (snd b) < 2 ^ 56)) h /\
     blen (ws_file s) < two63 /\
     dec_header_canon pragma_body = Some ([], 2) /\
     dec_header_canon (enc_header (roots_opt nilroots roots) 1) = Some (roots, 1) /\
@@ -169,7 +169,7 @@ Proof.
     by (intros; change (2 ^ 56) with 72057594037927936; lia).
   split; [exact Hs|].
   split; [num|]. split; [num|]. split; [num|].
-  split. { each. split; cbn [fst snd]; [apply ex_cid_ok1|apply Hsz; num]. }
+  split. { each. cbn [fst snd]. apply Hsz; num. }
   split; [num|]. split; [num|]. split; [num|].
   split. { each. num. }
   split. { each. apply ex_hash_good. apply ex_id1. }
